@@ -1,5 +1,5 @@
 """Generic driver for families of generated structural lemmas (one per function, for all Ops)."""
-import time
+import time, json, os
 from . import core, flow
 from .core import Lemma, sym, tree_coq, tree_leaves, tree_shape, has_hidden, tshow, tname, SymErr
 
@@ -27,15 +27,22 @@ def result_type(f):
     """what the model function returns: &mut self methods return the updated self"""
     return f['self'] if (f['self_mut'] and f['ret'] == 'unit') else f['ret']
 
-def build(idx, cfgs, prefix, spec_fn, per_file=100, select=None):
+def baseline(pid):
+    try: return set(json.load(open('%s/coverage/%s.json' % (core.VERIF, pid)))['covered'])
+    except (OSError, ValueError, KeyError): return set()
+
+def build(idx, cfgs, prefix, spec_fn, per_file=100, select=None, pid=None):
     """spec_fn(cfg, structs, f) -> None (not in this family) | dict(vars, lhs, rhs, spec[, tactic]).
     Lemmas are de-duplicated by (lhs, rhs) text: a function whose translated closure is identical in several
     configurations / types is one definition of the model and is proved once."""
-    files = {}; seen = {}; notes = {'untranslated': [], 'spec_errors': []}; n = 0; cover = []; order = []
+    files = {}; seen = {}; notes = {'untranslated': [], 'spec_errors': []}; n = 0; cover = []; order = []; base = baseline(pid) if pid else set()
     for cfg in cfgs:
         structs = idx.structs(cfg)
         for f in idx.fns(cfg):
             if f['generic'] or (select and not select(cfg, f)): continue
+            if (f['fid'] is None or f.get('status') == 'missing-callee') and ('%s:%s' % (cfg, f['key'])) in base:
+                # covered in the recorded baseline but no longer translatable: keep the obligation (it will fail) instead of silently dropping it
+                f = dict(f, fid=1, status='ok', lost=True)
             try: sp = spec_fn(cfg, structs, f)
             except SymErr as e:
                 notes['spec_errors'].append('%s %s: %s' % (cfg, f['key'], e)); continue
@@ -64,9 +71,9 @@ def corr_targets(cover, tier, key=None):
         seen.add(k); targets.append((cfg, f))
     return targets
 
-def run(pid, tier, seed, idx, info, t0, files, notes, cover, hdr, per_fn, rule, trusted, assumptions, extra=None, targets=None, fuel=400):
+def run(pid, tier, seed, idx, info, t0, files, notes, cover, hdr, per_fn, rule, trusted, assumptions, extra=None, targets=None, fuel=400, footer=''):
     core.LEMMA_TIMEOUT[0] = 20 if tier == 'quick' else 300
-    nob, nd, failures, assum = core.prove_files(core.BUILD + '/props/' + pid, files, hdr=hdr)
+    nob, nd, failures, assum = core.prove_files(core.BUILD + '/props/' + pid, files, hdr=hdr, footer=footer)
     notes['deferred_count'] = len(core.DEFERRED); notes['deferred'] = ['%s (%s)' % (l.meta['key'], why) for l, why in core.DEFERRED][:60]
     corr = core.correspondence(idx, targets if targets is not None else corr_targets(cover, tier), seed, per_fn, pid, fuel=fuel, max_calls=3000 if tier == 'quick' else 60000)
     samples = []
@@ -74,6 +81,7 @@ def run(pid, tier, seed, idx, info, t0, files, notes, cover, hdr, per_fn, rule, 
         for l in ls[:1]: samples.append({'lemma': l.name, 'statement': l.statement()[:400], 'covers': l.meta['covers'][:3]})
     res = {'idx': idx, 'obligations': nob, 'discharged': nd, 'failures': failures, 'assumptions': assum, 'corr': corr, 'notes': notes, 'translator': info, 'rule': rule, 'samples': samples,
            'trusted_base': ['Coq 8.16.1 kernel + vm_compute', 'translator rs2v (syn 2), its cfg evaluation and idiom recognisers', 'evaluator and primitive semantics coq/theories/Base.v, Sem.v'] + trusted,
-           'assumptions_text': ['model = translation of /repo/src by tools/rs2v, re-run on every check; validated by the differential run recorded under coverage.correspondence'] + assumptions}
+           'assumptions_text': ['model = translation of /repo/src by tools/rs2v, re-run on every check; validated by the differential run recorded under coverage.correspondence'] + assumptions,
+           'covered_keys': ['%s:%s' % (c, f['key']) for c, f in cover]}
     if extra: res.update(extra)
     return flow.report(pid, tier, seed, t0, res)
